@@ -11,7 +11,7 @@
    the positive parts that do hold. *)
 From PV Require Import Lib.Py Spec.FieldSpec Gen.bitfun Model.TokenField Gen.Tab_fields Proofs.C10_fields.
 From PV Require Gen.token_fields.
-From PV Require Import Proofs.C10_tie Proofs.C10_concat Proofs.C10_bitview.
+From PV Require Import Proofs.C10_tie Proofs.C10_concat Proofs.C10_bitview Proofs.C10_setbit.
 Module GT := PV.Gen.token_fields.
 From Coq Require Import String.
 Open Scope Z_scope.
@@ -216,6 +216,35 @@ Theorem c10_bitview_writes_exactly : forall data begin length_ start stop value,
 Proof. exact bitview_writes_exactly. Qed.
 Print Assumptions c10_bitview_writes_exactly.
 
+(* ---- wave 5: Token.__setitem__ with an int key (= Token.set_bit), regenerated as GT.tok_setbit.
+   Exact effect for every token size, state, index and value: bit i becomes (value != 0), no other bit changes *)
+Theorem c10_setbit_exact : forall size bv i v, 0 <= i < size ->
+  exists bv', GT.tok_setbit size bv i v = Ok bv' /\
+    forall j, 0 <= j -> Z.testbit bv' j = if j =? i then negb (v =? 0) else Z.testbit bv j.
+Proof. exact setbit_exact. Qed.
+Print Assumptions c10_setbit_exact.
+
+(* an index outside the token is always an AssertionError *)
+Theorem c10_setbit_rejects_bad_index : forall size bv i v, ~ (0 <= i < size) ->
+  GT.tok_setbit size bv i v = Internal AssertionError.
+Proof. exact setbit_rejects. Qed.
+Print Assumptions c10_setbit_rejects_bad_index.
+
+(* write then read the slice [i, i+1) with the regenerated __getitem__: an operand that fits one bit is read back exactly *)
+Theorem c10_setbit_readback : forall size bv i v, 0 <= i < size ->
+  exists bv', GT.tok_setbit size bv i v = Ok bv' /\
+    GT.tok_getitem bv' i (i + 1) = Ok (if v =? 0 then 0 else 1) /\
+    (fits false 1 v -> GT.tok_getitem bv' i (i + 1) = Ok v).
+Proof. exact setbit_readback. Qed.
+Print Assumptions c10_setbit_readback.
+
+(* ... but the full-strength "does not fit -> rejected" fails on this branch for EVERY value outside {0, 1}:
+   accepted and stored as 1 (bool(value)); in ppci only x86_64 RexToken-style `set_bit(6, 1)` uses it, with a constant 1 *)
+Theorem c10_setbit_truncates_refuted : forall size bv i v, 0 <= i < size -> ~ fits false 1 v ->
+  exists bv', GT.tok_setbit size bv i v = Ok bv' /\ GT.tok_getitem bv' i (i + 1) = Ok 1 /\ v <> 1.
+Proof. exact setbit_truncates. Qed.
+Print Assumptions c10_setbit_truncates_refuted.
+
 (* non-vacuity: hypotheses are inhabited and the model computes the expected numbers *)
 Example c10_nonvacuous :
   wrap_negative (-5) 8 = Ok 251 /\ wrap_negative 255 8 = Ok 255 /\ wrap_negative 256 8 = Diag 1 /\
@@ -230,5 +259,7 @@ Example c10_nonvacuous :
   GT.tok_setitem 32 0 20 32 (-1) = Ok 4293918720 /\ GT.concat_set 32 0 [25; 7] [32; 12] 0xABC = Ok 2852130304 /\
   GT.concat_get 2852130304 [25; 7] [32; 12] = Ok 0xABC /\
   GT.bitview_setitem [0xFF; 0xFF; 0xFF; 0xFF] 0 4 4 12 0x5A = Ok [0xAF; 0xF5; 0xFF; 0xFF] /\
-  GT.bitview_setitem [0; 0; 0; 0] 0 4 4 12 256 = Internal AssertionError.
+  GT.bitview_setitem [0; 0; 0; 0] 0 4 4 12 256 = Internal AssertionError /\
+  GT.tok_setbit 8 0 6 1 = Ok 64 /\ GT.tok_setbit 8 255 6 0 = Ok 191 /\ GT.tok_setbit 8 0 6 2 = Ok 64 /\
+  GT.tok_setbit 8 0 8 1 = Internal AssertionError.
 Proof. vm_compute. repeat split. Qed.
